@@ -38,14 +38,7 @@ __CPROVER_requires (len >= 0 && len <= 8 * LEN_MAX)
 __CPROVER_requires (len == 0 || __CPROVER_w_ok (s, (size_t) len))
 __CPROVER_assigns (len > 0: __CPROVER_object_from (s))
 __CPROVER_ensures (__CPROVER_return_value == s)
-__CPROVER_ensures ((g_byte < (size_t) len) ==> ((unsigned char *) s) [g_byte] == (unsigned char) c)
-__CPROVER_ensures ((g_byte + 1 < (size_t) len) ==> ((unsigned char *) s) [g_byte + 1] == (unsigned char) c)
-__CPROVER_ensures ((g_byte + 2 < (size_t) len) ==> ((unsigned char *) s) [g_byte + 2] == (unsigned char) c)
-__CPROVER_ensures ((g_byte + 3 < (size_t) len) ==> ((unsigned char *) s) [g_byte + 3] == (unsigned char) c)
-__CPROVER_ensures ((g_byte + 4 < (size_t) len) ==> ((unsigned char *) s) [g_byte + 4] == (unsigned char) c)
-__CPROVER_ensures ((g_byte + 5 < (size_t) len) ==> ((unsigned char *) s) [g_byte + 5] == (unsigned char) c)
-__CPROVER_ensures ((g_byte + 6 < (size_t) len) ==> ((unsigned char *) s) [g_byte + 6] == (unsigned char) c)
-__CPROVER_ensures ((g_byte + 7 < (size_t) len) ==> ((unsigned char *) s) [g_byte + 7] == (unsigned char) c)
+%(memset_ensures)s
 ;
 
 /* a handle as sf_open returns it (the part the wrappers rely on) */
@@ -55,27 +48,14 @@ __CPROVER_ensures ((g_byte + 7 < (size_t) len) ==> ((unsigned char *) s) [g_byte
 	&& 0 <= PSF->read_current && PSF->read_current <= FRAMES_MAX \\
 	&& 0 <= PSF->write_current && PSF->write_current <= FRAMES_MAX \\
 	&& (PSF->file.mode == SFM_READ || PSF->file.mode == SFM_WRITE || PSF->file.mode == SFM_RDWR) \\
-	&& (PSF->read_short == NULL || __CPROVER_obeys_contract (PSF->read_short, codec_read_short_c)) \\
-	&& (PSF->read_int == NULL || __CPROVER_obeys_contract (PSF->read_int, codec_read_int_c)) \\
-	&& (PSF->read_float == NULL || __CPROVER_obeys_contract (PSF->read_float, codec_read_float_c)) \\
-	&& (PSF->read_double == NULL || __CPROVER_obeys_contract (PSF->read_double, codec_read_double_c)) \\
-	&& (PSF->write_short == NULL || __CPROVER_obeys_contract (PSF->write_short, codec_write_short_c)) \\
-	&& (PSF->write_int == NULL || __CPROVER_obeys_contract (PSF->write_int, codec_write_int_c)) \\
-	&& (PSF->write_float == NULL || __CPROVER_obeys_contract (PSF->write_float, codec_write_float_c)) \\
-	&& (PSF->write_double == NULL || __CPROVER_obeys_contract (PSF->write_double, codec_write_double_c)) \\
-	&& (PSF->seek == NULL || __CPROVER_obeys_contract (PSF->seek, codec_seek_c)) \\
-	&& (PSF->write_header == NULL || __CPROVER_obeys_contract (PSF->write_header, container_write_header_c)) \\
-	&& PSF->sf.frames == vin_frames && PSF->read_current == vin_rc && PSF->write_current == vin_wc \\
+%(obeys)s	&& PSF->sf.frames == vin_frames && PSF->read_current == vin_rc && PSF->write_current == vin_wc \\
 	&& PSF->file.mode == vin_mode && PSF->last_op == vin_last_op && PSF->have_written == vin_have_written \\
 	&& PSF->dataend == vin_dataend && PSF->error == vin_error)
 
 #define FILE_OK		(PSF->virtual_io != SF_FALSE || PSF->file.filedes >= 0)
 
 /* one assigns clause: everything a wrapper may change in the handle */
-#define WRAPPER_FRAME	sf_errno, PSF->error, PSF->read_current, PSF->write_current, PSF->last_op, PSF->sf.frames, \\
-	PSF->have_written, PSF->dataend, PSF->header.indx, PSF->header.end, PSF->pipeoffset, \\
-	PSF->dataoffset, PSF->datalength, PSF->filelength, \\
-	g_codec_ret, g_codec_calls, g_seek_calls, g_seek_arg, g_seek_mode, g_hdr_calls
+#define WRAPPER_FRAME	sf_errno, __CPROVER_object_whole (sndfile), __CPROVER_object_whole (&gd)
 
 #define MIRROR_HAVOC()	do { sf_count_t a1, a2, a3, a4, a5 ; int b1, b2, b3, b4, b5 ; size_t c1 ; long long d1 ; \\
 	vin_len = a1 ; vin_frames = a2 ; vin_rc = a3 ; vin_wc = a4 ; vin_dataend = a5 ; vin_mode = b1 ; vin_last_op = b2 ; \\
@@ -94,8 +74,8 @@ READ_T = """
 sf_count_t %(fn)s (SNDFILE *sndfile, %(T)s *ptr, sf_count_t %(n)s)
 __CPROVER_requires (sndfile == NULL || HANDLE_OK)
 __CPROVER_requires (%(n)s == vin_len && -LEN_MAX <= %(n)s && %(n)s <= LEN_MAX / CH)
-__CPROVER_requires (%(n)s <= 0 || __CPROVER_is_fresh (ptr, (size_t) ITEMS * sizeof (%(T)s)))
-__CPROVER_assigns (sndfile != NULL: WRAPPER_FRAME; sndfile == NULL: sf_errno; %(n)s > 0: __CPROVER_object_whole (ptr))
+__CPROVER_requires (%(n)s <= 0 || __CPROVER_is_fresh (ptr, (size_t) ITEMS * %(SZ)d))
+__CPROVER_assigns (sf_errno, __CPROVER_object_whole (&gd); sndfile != NULL: __CPROVER_object_whole (sndfile); %(n)s > 0: __CPROVER_object_whole (ptr))
 /* ---- invalid calls (C09) ---- */
 __CPROVER_ensures (sndfile == NULL ==> (__CPROVER_return_value == 0 && (%(n)s == 0 || sf_errno == SFE_BAD_SNDFILE_PTR))) /*@C09.null_handle*/
 __CPROVER_ensures ((sndfile != NULL && %(n)s != 0 && !FILE_OK) ==> (__CPROVER_return_value == 0 && PSF->error == SFE_BAD_FILE_PTR)) /*@C09.bad_file*/
@@ -107,8 +87,7 @@ __CPROVER_ensures ((sndfile != NULL && !VALID_CALL) ==> (PSF->read_current == vi
 __CPROVER_ensures ((sndfile != NULL && VALID_CALL && !AT_END && !CAN_READ) ==> (__CPROVER_return_value == 0 && PSF->error == SFE_UNIMPLEMENTED)) /*@C09.unimplemented*/
 /* ---- end of data (C05) ---- */
 __CPROVER_ensures ((VALID_CALL && AT_END) ==> (__CPROVER_return_value == 0 && PSF->error == 0 && PSF->read_current == vin_rc && g_codec_calls == 0)) /*@C05.eof_returns_zero_no_error*/
-__CPROVER_ensures ((VALID_CALL && AT_END && 0 <= g_idx && g_idx < ITEMS && g_byte == (size_t) g_idx * sizeof (%(T)s)) ==>
-					SAME_BITS (ptr [g_idx], %(UT)s) == 0) /*@C05.eof_zero_fills_request*/
+__CPROVER_ensures ((VALID_CALL && AT_END && 0 <= g_idx && g_idx < ITEMS) ==> ptr [g_idx] == 0) /*@C05.eof_zero_fills_request*/
 /* ---- normal reads (C05, C06, C08) ---- */
 __CPROVER_ensures (0 <= __CPROVER_return_value && __CPROVER_return_value <= %(n)s || (%(n)s < 0 && __CPROVER_return_value == 0)) /*@C05.read_ret_range*/
 __CPROVER_ensures ((VALID_CALL && !AT_END && CAN_READ) ==> (RET_ITEMS %% CH == 0)) /*@C05.read_whole_frames*/
@@ -128,7 +107,7 @@ __CPROVER_ensures ((VALID_CALL && g_codec_calls == 1 && g_codec_ret == ITEMS && 
 
 void h_unit (void)
 {	SNDFILE *sndfile ; %(T)s *ptr ; sf_count_t n ;
-	KEEP_CONTRACT_ADDRESSES () ;
+	%(keep)s
 	GHOST_HAVOC () ; MIRROR_HAVOC () ;
 	sf_count_t r = %(fn)s (sndfile, ptr, n) ;
 	REACH (vin_len > 0 && vin_rc >= vin_frames && vin_mode == SFM_READ && sndfile != NULL && r == 0, "end of data case") ;
@@ -149,8 +128,8 @@ WRITE_T = """
 sf_count_t %(fn)s (SNDFILE *sndfile, const %(T)s *ptr, sf_count_t %(n)s)
 __CPROVER_requires (sndfile == NULL || HANDLE_OK)
 __CPROVER_requires (%(n)s == vin_len && -LEN_MAX <= %(n)s && %(n)s <= LEN_MAX / CH)
-__CPROVER_requires (%(n)s <= 0 || __CPROVER_is_fresh (ptr, (size_t) ITEMS * sizeof (%(T)s)))
-__CPROVER_assigns (sndfile != NULL: WRAPPER_FRAME; sndfile == NULL: sf_errno)
+__CPROVER_requires (%(n)s <= 0 || __CPROVER_is_fresh (ptr, (size_t) ITEMS * %(SZ)d))
+__CPROVER_assigns (sf_errno, __CPROVER_object_whole (&gd); sndfile != NULL: __CPROVER_object_whole (sndfile))
 /* ---- invalid calls (C09) ---- */
 __CPROVER_ensures (sndfile == NULL ==> (__CPROVER_return_value == 0 && (%(n)s == 0 || sf_errno == SFE_BAD_SNDFILE_PTR))) /*@C09.null_handle*/
 __CPROVER_ensures ((sndfile != NULL && %(n)s != 0 && !FILE_OK) ==> (__CPROVER_return_value == 0 && PSF->error == SFE_BAD_FILE_PTR)) /*@C09.bad_file*/
@@ -178,7 +157,7 @@ __CPROVER_ensures ((VALID_CALL && WROTE && g_codec_ret == ITEMS && g_seek_calls 
 
 void h_unit (void)
 {	SNDFILE *sndfile ; const %(T)s *ptr ; sf_count_t n ;
-	KEEP_CONTRACT_ADDRESSES () ;
+	%(keep)s
 	GHOST_HAVOC () ; MIRROR_HAVOC () ;
 	sf_count_t r = %(fn)s (sndfile, ptr, n) ;
 	REACH (r > 0 && g_codec_calls == 1 && r < vin_len, "short write") ;
@@ -193,10 +172,22 @@ void h_unit (void)
 def rw_unit(kind, T, framesv, ch, tier):
     fn = "sf_%s%s_%s" % (kind, "f" if framesv else "", T)
     n = "frames" if framesv else "len"
-    d = dict(fn=fn, T=T, UT=TYPES[T], n=n, ch=ch,
+    d = dict(fn=fn, T=T, UT=TYPES[T], n=n, ch=ch, SZ={"short": 2, "int": 4, "float": 4, "double": 8}[T],
              items=("(frames * CH)" if framesv else "len"),
              retmul=(" * CH" if framesv else ""),
              align=("" if framesv else " && len % CH == 0"))
+    SZ = {"short": 2, "int": 4, "float": 4, "double": 8}[T]
+    # stated on the element type of this wrapper (a byte-wise clause over a buffer of symbolic size makes CBMC
+    # lower byte_extract over an unbounded array: measured out of memory); the byte-wise contract is enforced on
+    # the real psf_memset in the common.c unit
+    d["memset_ensures"] = ("__CPROVER_requires (c == 0 && len %% sizeof (%s) == 0)\n"
+                           "__CPROVER_ensures ((0 <= g_idx && g_idx < len / (sf_count_t) sizeof (%s)) ==> ((%s *) s) [g_idx] == 0)"
+                           % (T, T, T))
+    ptrs = [("%s_%s" % (kind, T), "codec_%s_%s_c" % (kind, T)), ("seek", "codec_seek_c")]
+    if kind == "write":
+        ptrs.append(("write_header", "container_write_header_c"))
+    d["obeys"] = "".join("\t&& (PSF->%s == NULL || __CPROVER_obeys_contract (PSF->%s, %s)) \\\n" % (f, f, c) for f, c in ptrs)
+    d["keep"] = "void *keep_c [] = { %s } ; (void) keep_c ;" % ", ".join("(void *) " + c for f, c in ptrs)
     if framesv:
         d["align_clause"] = ""
     else:
@@ -210,7 +201,7 @@ def rw_unit(kind, T, framesv, ch, tier):
             "template": "units/gen_sndfile.py", "entry": "h_unit", "enforce": fn, "function": "sndfile.c:" + fn,
             "replace": ["psf_memset", "psf_file_valid"], "timeout": 600, "tier": tier,
             "kind": "enumerated(channels=%d)" % ch, "defines": [], "cbmc_flags": ["--object-bits", "12"],
-            "replay_driver": "sndfile_rw.c",
+            "replay_driver": "sndfile_rw.c", "replay_link": "all", "replay_exclude": ["sndfile.c"],
             "replay_defines": ["-DFN=%s" % fn, "-DT=%s" % T, "-DCH=%d" % ch, "-DKIND_%s" % kind.upper(),
                                "-DFRAMESV=%d" % (1 if framesv else 0)],
             "trusted": ["generic dispatch contracts (spec/dispatch.h) stand for psf->read_*/write_*/seek/write_header; "
